@@ -46,8 +46,9 @@ Proof. exact (conj overrides_modelled overrides_required). Qed.
 (* syntactic shape of EVERY definition of to / type / clone / detach / cpu / cuda / double / float / half in the package
    (the generic ones of LinearOperator and every override, regenerated per run): none can return `self` or a local
    alias of it, none leaves early under a test of self.dtype / self.device (the dtype property is only the dtype of the
-   first argument), none assigns an attribute of `self` - except the documented TransposePermutation.type (known
-   finding); and the generic methods are in the table.  A new early return / in-place shortcut breaks this proof. *)
+   first argument), none assigns an attribute of `self` - without exception since TransposePermutation.type was repaired
+   (documented_shapes = []); and the generic methods are in the table.  A new early return / in-place shortcut breaks
+   this proof. *)
 Theorem C14_copy_methods_shape_documented :
   (forall o m s, In (o, m, s) method_shapes -> s = (false, false, false) \/ In (o, m, s) documented_shapes) /\
   (forall m, In m base_methods -> In ("LinearOperator"%string, m, (false, false, false)) method_shapes).
@@ -147,21 +148,25 @@ Theorem C14_to_shortcut_on_dtype_refuted : forall defdt fuel d dev o n,
                 map obs (leaves o') <> map (cast_rule (MTo (Some d) dev)) (leaves o).
 Proof. exact to_shortcut_violates. Qed.
 
-(* PermutationLinearOperator.to (any dtype / device request): the index tensors perm / inv_perm are handed over
-   untouched - same storages, same integer dtype, nothing allocated - and only the nominal dtype changes *)
-Theorem C14_perm_to_keeps_indices : forall defdt f d dev ch dn nd at_ n o' n',
-  wfb (AOp CPermutation ch dn nd at_) = true ->
-  meth_call defdt (S f) (MTo d dev) (AOp CPermutation ch dn nd at_) n = Some (o', n') ->
-  o' = AOp CPermutation ch dn nd (perm_attrs d (dflt_attrs defdt CPermutation)) /\ n' = n.
+(* Permutation.to / TransposePermutation.to (any dtype / device request): the arguments - the index tensors perm / inv_perm -
+   are handed over untouched (same storages, same integer dtype, nothing allocated); only the dtype keyword is rewritten
+   (and kept when no dtype is requested) *)
+Theorem C14_perm_to_keeps_indices : forall defdt f d dev c ch dn nd at_ n o' n',
+  is_perm_cls c = true -> wfb (AOp c ch dn nd at_) = true ->
+  meth_call defdt (S f) (MTo d dev) (AOp c ch dn nd at_) n = Some (o', n') ->
+  o' = AOp c ch dn (nd_to c d dev nd) (dflt_attrs defdt c) /\ n' = n.
 Proof. exact perm_to_keeps_indices. Qed.
 
-(* the known finding at the level of the model: TransposePermutationLinearOperator has no to() of its own; the generic
-   one rebuilds it through the constructor, which hard-wires float32 - the result never reports the requested dtype *)
-Theorem C14_transperm_to_resets_nominal_refuted : forall defdt f d dev ch dn nd at_ n o' n',
-  wfb (AOp CTransposePermutation ch dn nd at_) = true -> ch = [] ->
-  meth_call defdt (S f) (MTo d dev) (AOp CTransposePermutation ch dn nd at_) n = Some (o', n') ->
-  dtype_of o' = Some F32.
-Proof. exact transperm_to_resets_nominal. Qed.
+(* the repaired findings as a theorem: the nominal dtype of the two permutation classes is a constructor keyword, so
+   to(d) / type(d) return an operator that REPORTS d (it used to be reset to float32 by every rebuild, and
+   TransposePermutation.to ignored the request) *)
+Theorem C14_perm_conversion_sets_dtype : forall defdt fuel m d c ch dn nd at_ n o' n',
+  is_perm_cls c = true ->
+  (exists dev, m = MTo (Some d) dev) \/ m = MType d ->
+  wfb (AOp c ch dn nd at_) = true -> losslessb defdt (AOp c ch dn nd at_) = true -> safeb m (AOp c ch dn nd at_) = true ->
+  meth_call defdt fuel m (AOp c ch dn nd at_) n = Some (o', n') ->
+  dtype_of o' = Some d.
+Proof. exact perm_conversion_sets_dtype. Qed.
 
 (* torch's default dtype is not an input of clone / detach / cpu / to / type: the same call on the same stored operator
    returns the same result under ANY default dtype - in particular under a default that changed since the operator
@@ -201,7 +206,7 @@ Example C14_convert_hypotheses_satisfiable :
   (exists o' n', meth_call F64 8 (MTo (Some F64) None) ex_interp 6 = Some (o', n')).
 Proof. vm_compute. repeat split; try reflexivity; eexists; eexists; try split; reflexivity. Qed.
 
-(* Matmul( Permutation(perm, inv_perm) [nominal float32], Dense(float64 tensor) ): the operator REPORTS float32 although
+(* Matmul( Permutation(perm, inv_perm) [dtype keyword left at its float32 default], Dense(float64 tensor) ): the operator REPORTS float32 although
    its only floating tensor is float64.  All hypotheses of the conversion theorems hold; to(float32) must - and in the
    model does - cast the float64 tensor (fresh storage 3); the dtype-keyed shortcut would return it unchanged. *)
 (* (the keywords a constructor stores when called with defaults, read off the regenerated table) *)
@@ -209,8 +214,7 @@ Definition dflt_nd (c : cls) : list (Z * value) :=
   isort (flat_map (fun x => match x with (k, Some v, PKw) => [(k, v)] | _ => [] end) (cs_named (spec_of c))).
 Definition ex_perm_first : arg :=
   AOp CMatmul
-    [AOp CPermutation [ATensor (T 0 0 I64 false); ATensor (T 1 1 I64 false)] [] (dflt_nd CPermutation)
-         [(k_dtype, VDtype F32)];
+    [AOp CPermutation [ATensor (T 0 0 I64 false); ATensor (T 1 1 I64 false)] [] (dflt_nd CPermutation) [];
      AOp CDense [ATensor (T 2 2 F64 true)] [] [] []] [] [] [].
 Example C14_nominal_first_argument_satisfiable :
   wfb ex_perm_first = true /\ losslessb F64 ex_perm_first = true /\ safeb (MTo (Some F32) None) ex_perm_first = true /\
